@@ -143,6 +143,8 @@ type Snapshot struct {
 	HasG  bool
 	GS    []int
 	GV    []float64
+	// Sum: the tensor as its whole-tensor reducers see it (a second read path next to At)
+	Sum float64
 }
 
 // Snap captures shape, elements and gradient of x (bit-exact comparisons use Equal).
@@ -151,6 +153,7 @@ func Snap(x tensor.Tensor) (s Snapshot, err error) {
 	if err != nil {
 		return
 	}
+	s.Sum = x.Sum()
 	if g := x.Gradient(); g != nil {
 		s.HasG = true
 		s.GS, s.GV, err = Read(g)
@@ -159,7 +162,7 @@ func Snap(x tensor.Tensor) (s Snapshot, err error) {
 }
 
 func (a Snapshot) Equal(b Snapshot) bool {
-	if !ref.EqShape(a.Shape, b.Shape) || a.HasG != b.HasG || !ref.EqShape(a.GS, b.GS) {
+	if !ref.EqShape(a.Shape, b.Shape) || a.HasG != b.HasG || !ref.EqShape(a.GS, b.GS) || !SameBits(a.Sum, b.Sum) {
 		return false
 	}
 	for i := range a.V {
